@@ -8,7 +8,7 @@ import (
 
 type c08Key string
 
-//verif:entry property=C08 tier=both bounds="n<=N handlers each sync/async x plain/context-aware; cancellation point in {never, before the call (cancelled, or ended by its deadline), by handler k (which may then panic)}; event published as its own type or as an interface value; every subset of the four publish hooks" cover="cancelled-before,cancelled-by-handler,never-cancelled" N_quick=2 N_thorough=3
+//verif:entry property=C08 tier=both bounds="n<=N handlers each sync/async x plain/context-aware; cancellation point in {never, before the call (cancelled, or ended by its deadline), by handler k (which may then panic)}; event published as its own type or as an interface value; every subset of the four publish hooks, optionally a store at any position among them and the context-aware before hook given twice" cover="cancelled-before,cancelled-by-handler,never-cancelled" N_quick=2 N_thorough=3
 func harnessC08Hooks() {
 	N := vParam("N", 2)
 	var mu sync.Mutex
@@ -48,6 +48,22 @@ func harnessC08Hooks() {
 			e, ok := ev.(evA)
 			hookArgsOK = hookArgsOK && t == wantT && ok && e.N == 42
 			rec(4)
+		}))
+	}
+	// a store among the options (WithStore chains its persistence step onto the context-aware
+	// before hook) and the context-aware before hook given a second time: the hook given last
+	// is the one installed, it runs once per publish, the replaced one not at all
+	if vBool() {
+		pos := vInt(0, len(opts))
+		withStore := append(append(append([]Option{}, opts[:pos]...), WithStore(NewMemoryStore())), opts[pos:]...)
+		opts = withStore
+	}
+	dupBC := hookBC && vBool()
+	if dupBC {
+		opts = append(opts, WithBeforePublishContext(func(ctx context.Context, t reflect.Type, ev any) {
+			e, ok := ev.(evA)
+			hookArgsOK = hookArgsOK && t == wantT && ok && e.N == 42
+			rec(5)
 		}))
 	}
 	bus := New(opts...)
@@ -166,12 +182,17 @@ func harnessC08Hooks() {
 		}
 		return 0
 	}
-	vAssert(count(1) == b2i(hookB) && count(2) == b2i(hookBC), "before-hooks-exactly-once")
+	if dupBC {
+		vAssert(count(1) == b2i(hookB) && count(2) == 0 && count(5) == 1, "before-hooks-exactly-once")
+		vAssert(idx(5) < firstHandler, "before-hook-precedes-handlers")
+	} else {
+		vAssert(count(1) == b2i(hookB) && count(2) == b2i(hookBC), "before-hooks-exactly-once")
+	}
 	vAssert(count(3) == b2i(hookA) && count(4) == b2i(hookAC), "after-hooks-exactly-once")
 	if hookB {
 		vAssert(idx(1) < firstHandler, "before-hook-precedes-handlers")
 	}
-	if hookBC {
+	if hookBC && !dupBC {
 		vAssert(idx(2) < firstHandler, "before-hook-precedes-handlers")
 	}
 	if hookA {
